@@ -240,7 +240,10 @@ def part_seq(chk, drv, runner):
         flav[h] = fl
     lines = ["iso " + h for h in hists]
     impl = common.run_lines(drv, lines, shards=4)
-    model = common.run_lines(runner, lines, shards=4)
+    # VERIF_C20_MODEL=fixed compares the library with the model WITHOUT the shared cells (used to validate
+    # proposed_fixes/shared_static_null.diff on a scratch copy of /repo); the default is the code as it is
+    mcmd = "iso_fixed " if os.environ.get("VERIF_C20_MODEL") == "fixed" else "iso "
+    model = common.run_lines(runner, [mcmd + h for h in hists], shards=4)
     fixed = common.run_lines(runner, ["iso_fixed " + h for h in hists], shards=4)
     nsteps = 0
     tie = []
@@ -250,6 +253,7 @@ def part_seq(chk, drv, runner):
     results = {}
     nontriv = set()
     solo_jobs = []
+    deferred = []
     for idx, h in enumerate(hists):
         st = parse_steps(impl[idx])
         ops = [o for o in h.split(";") if o]
@@ -272,13 +276,16 @@ def part_seq(chk, drv, runner):
             sig = SIG_SEQ if same else ""
             if sig:
                 hit_known += 1
-            chk.violation({"kind": "property-fails-on-implementation", "part": "seq",
-                           "why": "step %d (%s) is an operation of document %s but changed what a caller sees of %s" % (
-                               i, op, op.split(",")[1], "a fresh parse" if key == "F" else "document %s (%s)" % (seg_doc(key), key)),
-                           "history": h, "step": i, "op": op, "segment": key, "before": b, "after": a,
-                           "changed_segments": len(bad), "model_predicts_the_same": same, "replay": "iso " + h}, signature=sig)
-            if not same:
-                pass
+            rep = {"kind": "property-fails-on-implementation", "part": "seq",
+                   "why": "step %d (%s) is an operation of document %s but changed what a caller sees of %s" % (
+                       i, op, op.split(",")[1], "a fresh parse" if key == "F" else "document %s (%s)" % (seg_doc(key), key)),
+                   "history": h, "step": i, "op": op, "segment": key, "before": b, "after": a,
+                   "changed_segments": len(bad), "model_predicts_the_same": same, "replay": "iso " + h}
+            # a frame violation on a history WITHOUT null tokens cannot be the known finding: report it first
+            if sig or flav.get(h) == "clean":
+                chk.violation(rep, signature=sig)
+            else:
+                deferred.append(rep)
         else:
             clean += 1
             if not same:
@@ -335,6 +342,8 @@ def part_seq(chk, drv, runner):
                                "history": h, "solo_history": project(h, d), "together": [fr, mine_f], "alone": [sr, mine_s],
                                "replay": "iso " + h})
                 break
+    for rep in deferred:
+        chk.violation(rep)
     chk.count("solo", nsolo, [("solo", hists[i]) for i in solo_jobs][:0])
     chk.cov["parts"]["solo"]["projected_histories"] = len(sl)
 
